@@ -133,8 +133,31 @@ class RealRun:
     pass
 
 
+class _TfileProxy:
+    """stands in for FileStorage._tfile (instance attribute, harness process only): the first read() after
+    arming — i.e. tpc_vote's cp() after the header went into the write buffer, before the records — runs a
+    hook (a second thread's read) at a point where no lock operation or raw write would let it in"""
+
+    def __init__(self, f):
+        self.__dict__['_f'] = f
+        self.__dict__['_hook'] = None
+
+    def read(self, *a):
+        h = self.__dict__['_hook']
+        if h is not None:
+            self.__dict__['_hook'] = None
+            h()
+        return self.__dict__['_f'].read(*a)
+
+    def __getattr__(self, n):
+        return getattr(self.__dict__['_f'], n)
+
+
+UNKNOWN = object()
+
+
 def run_history(hist, root, pack_after=None, keep_open=False, referencesf=None, existing=False,
-                fsync_fault_at=None):
+                fsync_fault_at=None, live_reads=True):
     """Execute `hist` on a fresh FileStorage at root/Data.fs under vfs recording.
     Returns RealRun with: init (directory image after creation), events (since creation), committed
     (list of txn indices whose tpc_finish returned), outcome per txn, final (Data.fs bytes),
@@ -161,6 +184,32 @@ def run_history(hist, root, pack_after=None, keep_open=False, referencesf=None, 
         committed_tids = []
         undoable = []     # tids of committed transactions with status ' '
         rr.fsync_fault = None
+        rr.live_violations = []      # reads through the LIVE storage that did not show the committed state
+        rr.reader_interleavings = 0
+        state = {}                   # oid -> committed bytes | None (does not exist) | UNKNOWN
+        bp_revs = []                 # (oid, tid) of committed back-pointer records (undo / restore with prev_txn)
+        recency = []                 # oids, least recently committed first (~ ascending file position)
+        if live_reads and isinstance(getattr(fs, '_tfile', None), object) and fs._tfile is not None:
+            fs._tfile = _TfileProxy(fs._tfile)
+
+        def live_check(when, oids):
+            """load() through the read-file pool must show exactly the last COMMITTED revision"""
+            for o in oids:
+                want = state.get(o, UNKNOWN)
+                if want is UNKNOWN:
+                    continue
+                try:
+                    got = fs.load(o, '')
+                    if want is None or got[0] != want or got[1] != cur.get(o):
+                        rr.live_violations.append((when, 'load(%x) returned %d bytes serial %x, committed is %s' % (
+                            u64(o), len(got[0]), u64(got[1]),
+                            'no object' if want is None else '%d bytes serial %x' % (len(want), u64(cur.get(o, Z64))))))
+                except POSKeyError:
+                    if want is not None:
+                        rr.live_violations.append((when, 'load(%x) raised POSKeyError, committed is %d bytes'
+                                                   % (u64(o), len(want))))
+                except Exception as e:
+                    rr.live_violations.append((when, 'load(%x) raised %s' % (u64(o), ename(e))))
         if existing:
             # continue on a data file that already holds transactions (reopened after a crash)
             for okey, opos in list(fs._index.items()):
@@ -220,8 +269,35 @@ def run_history(hist, root, pack_after=None, keep_open=False, referencesf=None, 
                 rec.mark('aborted %d' % k)
                 rr.outcome.append('abort_before' if not failed else 'op_failed')
             else:
+                readers = []
+                if live_reads and bp_revs and rr.reader_interleavings < 2 and isinstance(fs._tfile, _TfileProxy):
+                    # a second thread asks for a back-pointer revision while this vote is between its writes
+                    import threading
+                    boid, btid = bp_revs[-1]
+
+                    def sync(boid=boid, btid=btid):
+                        def reader():
+                            try:
+                                fs.loadSerial(boid, btid)
+                            except Exception:
+                                pass
+                        th = threading.Thread(target=reader, daemon=True)
+                        th.start()
+                        th.join(0.1)            # unchanged code: the reader waits for the storage lock
+                        readers.append(th)
+                    fs._tfile.__dict__['_hook'] = sync
+                    rr.reader_interleavings += 1
                 fs.tpc_vote(md)
+                if isinstance(fs._tfile, _TfileProxy):
+                    fs._tfile.__dict__['_hook'] = None
+                for th in readers:
+                    th.join(5)
                 rec.mark('voted %d' % k)
+                if live_reads:
+                    # reads while the transaction is voted but not finished see the committed state only
+                    # newest record first, then older ones: the pooled handle has to refill its read-ahead
+                    # buffer (which then holds the voted bytes behind the committed end) whenever possible
+                    live_check('while transaction %d is voted' % k, [o for o in reversed(recency) if o in cur][:5])
                 if kind == 'abort_after':
                     fs.tpc_abort(md)
                     rec.mark('aborted %d' % k)
@@ -260,6 +336,30 @@ def run_history(hist, root, pack_after=None, keep_open=False, referencesf=None, 
                             last_data.pop(o, None)
                     if t['status'] == ' ':
                         undoable.append(tid)
+                    for kind_, o_, data_ in issued:
+                        o_ = p64(o_)
+                        if kind_ == 'data':
+                            state[o_] = data_
+                        elif kind_ == 'del':
+                            state[o_] = None
+                        else:
+                            state[o_] = UNKNOWN
+                    for op in t['ops']:
+                        if op[0] == 'undo':
+                            bp_revs += [(o_, tid) for o_ in pending if state.get(o_) is UNKNOWN]
+                        elif op[0] == 'restore' and op[3]:
+                            o_ = p64(op[1])
+                            if state.get(o_, UNKNOWN) not in (UNKNOWN, None):
+                                bp_revs.append((o_, tid))
+            if live_reads and rr.outcome and rr.outcome[-1] == 'commit':
+                for o_ in pending:
+                    if o_ in recency:
+                        recency.remove(o_)
+                    recency.append(o_)
+            if live_reads and rr.outcome and rr.outcome[-1] != 'fsync_fault' and (k % 2 == 1 or k == len(hist) - 1):
+                # (only after every other transaction, oldest record first: so that the first read after a
+                # commit sometimes happens inside the next voted window, and the buffer ends up at the end)
+                live_check('after transaction %d (%s)' % (k, rr.outcome[-1]), [o for o in recency if o in cur][-6:])
             if t.get('save_index'):
                 fs._save_index()
                 rec.mark('saved index %d' % k)
